@@ -17,12 +17,22 @@ import (
 )
 
 const (
-	repoDir  = "/repo"
-	goCmd    = "go1.26.8"
-	sutMod   = "go.flow.arcalot.io/pluginsdk"
-	harnMod  = "verifharness"
-	verifDir = "/verif"
+	repoDir = "/repo"
+	goCmd   = "go1.26.8"
+	sutMod  = "go.flow.arcalot.io/pluginsdk"
+	harnMod = "verifharness"
 )
+
+// verifDir is the directory the framework lives in: the working directory when it looks like one
+// (so that a snapshot started with `vp run` uses its own files), else /verif.
+var verifDir = func() string {
+	if wd, err := os.Getwd(); err == nil {
+		if _, err := os.Stat(filepath.Join(wd, "harness", "engine.go")); err == nil {
+			return wd
+		}
+	}
+	return "/verif"
+}()
 
 func goEnv() []string {
 	env := os.Environ()
